@@ -127,6 +127,8 @@ def prepare_push_source(op, out):
         return io.BytesIO(make_content(src["content"]))
     if out.tmpdir is None:
         out.tmpdir = tempfile.mkdtemp(prefix="advf-")
+    if kind == "missing":
+        return os.path.join(out.tmpdir, "no-such-file.bin")
     if kind == "file":
         p = os.path.join(out.tmpdir, "src-%d.bin" % len(os.listdir(out.tmpdir)))
         with open(p, "wb") as f:
@@ -176,6 +178,8 @@ def prepare_pull_dest(op, out):
         return FailingBytesIO(op.get("fail_after", 1))
     if out.tmpdir is None:
         out.tmpdir = tempfile.mkdtemp(prefix="advf-")
+    if op.get("dest") == "badpath":
+        return os.path.join(out.tmpdir, "no-such-dir", "pull.bin")
     return os.path.join(out.tmpdir, "pull-%d.bin" % len(os.listdir(out.tmpdir)))
 
 
